@@ -1,7 +1,7 @@
 """C10 — option spelling follows the generation mode, nested mode and dash variant."""
 from __future__ import annotations
 
-import dataclasses
+import contextlib
 import itertools
 
 from harness.core import sp
@@ -9,37 +9,65 @@ from harness.core.trees import Universe, get_path
 
 PID = "C10"
 RULE = ("every case is one parser setup: a clash-free dataclass tree (depth <= 3, names with/without underscores, one-letter "
-        "names, aliases with 0/1/2 leading dashes) x one of the 3x3x2 mode combinations x {ArgumentParser, parse()}. "
-        "Observed: the set of option strings of every field's action, one real parse per accepted spelling (must change "
-        "exactly that leaf) and per near-miss spelling (must be rejected). The 18 modes x 2 APIs x 17 fixed tree shapes "
-        "are enumerated in both tiers; random trees on top. Non-trivial = tree has >= 2 fields and (depth >= 2 or an "
-        "alias or a name with an underscore); distinct by canonical JSON.")
-ASSUMPTIONS = ["argparse abbreviation matching (near-miss spellings that are prefixes of a valid option are skipped)"]
+        "names, aliases with 0/1/2 leading dashes incl. one-dash multi-letter ones) x one of the 3x3 dash/generation modes x "
+        "{ArgumentParser(nested_mode=DEFAULT|WITHOUT_ROOT|omitted), parse(nested_mode=DEFAULT|WITHOUT_ROOT|omitted)}; plus the "
+        "legacy switch add_dest_to_option_strings (must act as BOTH) and an explicit add_arguments(prefix=) family (model "
+        "comparison only). Observed: the set of option strings of every field's action - for parse() read from the very "
+        "parser parse() constructs -, one real parse per accepted spelling (must change exactly that leaf; `--x v` and "
+        "`--x=v` forms) and per near-miss spelling (must be rejected; both forms). Enumerated in both tiers: 20 fixed tree "
+        "shapes x 9 modes x 3-5 API/nested-mode set-ups. EXHAUSTIVE part of the thorough tier (small scope): leaf in "
+        "{alpha,a_b,n} x alias in {none,g,zz,y_y,-z,-v_w,--al_pha,--e-f} x depth 1..3 x member chain in {opt.m, "
+        "sub_cfg.data_set} x 27 configurations (3 dash x 3 gen x {parser/DEFAULT, parser/WITHOUT_ROOT, parse()}) = 3240 "
+        "set-ups, each with a sibling leaf; random trees on top (sampled). Non-trivial = tree has >= 2 fields and (depth >= "
+        "2 or an alias or a name with an underscore); distinct by canonical JSON.")
+ASSUMPTIONS = ["argparse abbreviation matching (near-miss spellings that are prefixes of a valid option are skipped)",
+               "explicit add_arguments(prefix=...) is outside the property sentence: those leaves are compared with the model "
+               "only (exact-set clause skipped), the same-field / nothing-else clauses still apply"]
 TRUSTED = ["stdlib argparse (exact-match lookup of option strings)"]
 EXHAUSTIVE = {"quick": False, "thorough": False}
 MANIFEST = {
     "text": ("Proof: Lean theorem c10_exact states, for all 18 mode combinations and every name/prefix/destination/alias "
              "list, that the option strings the model of FieldWrapper.option_strings generates are exactly those allowed "
-             "by the documented rule (organised by source: flat name, nested path, aliases; dash spelling), with "
-             "corollaries for each mode in the property's words (UNDERSCORE keeps, DASH leaves no underscore in generated "
-             "names, UNDERSCORE_AND_DASH closed under dashing, WITHOUT_ROOT drops exactly the first component at any "
-             "depth), and that the engine rejects every long spelling outside that set up to argparse's abbreviations "
-             "(c10_no_other_spelling). The model is tied to the code by comparing option-string sets of every field of generated parser "
-             "setups, and an independent transcription of the property sentence is evaluated on the real parser together "
-             "with one real parse per accepted and per near-miss spelling."),
+             "by the documented rule (organised by source: flat name, nested path, aliases; dash spelling); "
+             "c10_optionStrings_iff carries it through the de-duplication and sort to the strings handed to add_argument. "
+             "Corollaries in the property's words: explicit option lists for UNDERSCORE / DASH / UNDERSCORE_AND_DASH in "
+             "FLAT / NESTED / BOTH, one-letter names, WITHOUT_ROOT drops exactly the first component at any depth, declared "
+             "aliases with 0/1/2 dashes are kept as declared in every mode (DASH never rewrites them), both spellings of "
+             "names, paths and aliases under UNDERSCORE_AND_DASH. 'Every accepted spelling sets the same field': "
+             "c10_spelling_sets_field / c10_same_field (any table: each option string of an action that no earlier action "
+             "shadows stores at that action's destination and nowhere else) and c10_flat_spelling_sets_field (for the table "
+             "built from a dataclass: every spelling the rule allows). 'No other spelling': c10_no_other_spelling(_eq) and "
+             "c10_flat_no_other_spelling(_eq) over the engine model of argparse's lookup, composed with the rule, for the "
+             "`--x v` and `--x=v` forms, up to argparse's abbreviations. The model is tied to the code by comparing "
+             "option-string sets of every field of generated parser set-ups (both APIs, the parser parse() itself builds), "
+             "and an independent transcription of the property sentence is evaluated on the real parser together with one "
+             "real parse per accepted and per near-miss spelling."),
     "note": ("Trusted: Lean kernel + standard axioms; argparse's option lookup; harness. Modelled not verified: "
-             "field_wrapper.py:565-655, wrapper.py:25-30. 'No other spelling is accepted' is the theorem "
-             "c10_no_other_spelling over the engine model of argparse's lookup (any table, any surrounding tokens: a long "
-             "spelling that is no prefix of any option string is never accepted; prefixes are argparse's abbreviations), and "
-             "is probed on the real parser by near-miss spellings."),
-    "technique": "Lean 4 set-characterisation theorem over all mode combinations + differential check on real parsers",
+             "field_wrapper.py:565-655, wrapper.py:25-30. Open findings (witness theorems in Props/C10.lean): a field named "
+             "`_` registers the bare separator `--` as an option string under DASH / UNDERSCORE_AND_DASH "
+             "(c10_separator_witness, c10_same_field_separator_witness; partial theorem under name != \"_\"); the dashed "
+             "variant of a one-dash multi-letter alias `-v_w` is registered with two dashes, `--v-w` "
+             "(c10_alias_variant_witness; partial theorem for 0- and 2-dash aliases)."),
+    "technique": "Lean 4 set-characterisation theorem over all mode combinations + engine theorems + differential check on real parsers",
     "design_ref": "DESIGN.md section 5, C10",
 }
 
 LEAF_NAMES = ["alpha", "beta", "num", "size", "seed", "a_b", "lr_rate", "x_y_z", "n", "k", "q", "w", "max_len", "v2"]
 MEMBER_NAMES = ["opt", "model", "sub_cfg", "m", "inner", "data_set", "model_config", "xc", "config", "cfg_a_cfg_a"]
-ALIASES = ["--al_pha", "-z", "zz", "y_y", "--e-f", "-u", "g", "--long_alias_name", "mm-nn"]
+ALIASES = ["--al_pha", "-z", "zz", "y_y", "--e-f", "-u", "g", "--long_alias_name", "mm-nn", "-v_w", "-zz"]
 DEST_NAMES = ["config", "cfg_a", "c"]
+PREFIXES = ["p_", "x-"]
+NEST_ARGS = ["DEFAULT", "WITHOUT_ROOT", "OMIT"]     # OMIT = the nested_mode argument is not passed at all
+
+
+def _number_defaults(classes):
+    i = 0
+    for c in classes:
+        for f in c["fields"]:
+            if f["ty"]["k"] == "int":
+                f["default"] = {"kind": "value", "v": {"t": "int", "v": str(100 + i)}}
+                i += 1
+    return classes
 
 
 def mk_tree(rng, depth, names, members, aliases, n_leaf=(1, 3), p_alias=0.3):
@@ -72,24 +100,20 @@ def mk_tree(rng, depth, names, members, aliases, n_leaf=(1, 3), p_alias=0.3):
         return cname
 
     root = build(1)
-    # distinct int defaults
-    i = 0
-    for c in classes:
-        for f in c["fields"]:
-            if f["ty"]["k"] == "int":
-                f["default"] = {"kind": "value", "v": {"t": "int", "v": str(100 + i)}}
-                i += 1
-    return classes, root
+    return _number_defaults(classes), root
+
+
+def _leaf(n, al=()):
+    return {"name": n, "ty": {"k": "int"}, "alias": list(al)}
+
+
+def _mem(n, c):
+    return {"name": n, "ty": {"k": "dc", "cls": c}, "default": {"kind": "factory", "v": None}}
 
 
 def fixed_trees():
-    """17 hand-picked shapes covering each feature of the quantifier."""
-    def leaf(n, al=()):
-        return {"name": n, "ty": {"k": "int"}, "alias": list(al)}
-
-    def mem(n, c):
-        return {"name": n, "ty": {"k": "dc", "cls": c}, "default": {"kind": "factory", "v": None}}
-
+    """20 hand-picked shapes covering each feature of the quantifier."""
+    leaf, mem = _leaf, _mem
     shapes = [
         [("K0", [leaf("alpha")])],
         [("K0", [leaf("a_b")])],
@@ -109,40 +133,96 @@ def fixed_trees():
         [("K1", [leaf("depth")]), ("K0", [mem("model_config", "K1"), leaf("size")])],
         [("K2", [leaf("lr_rate")]), ("K1", [mem("config", "K2"), leaf("num")]), ("K0", [mem("opt", "K1")])],
         [("K0", [leaf("config")])],
+        # one-dash multi-letter aliases (with / without underscore), at the root and nested
+        [("K0", [leaf("alpha", ["-v_w"]), leaf("beta", ["-zz"])])],
+        [("K1", [leaf("seed", ["-v_w", "--al_pha"])]), ("K0", [mem("opt", "K1"), leaf("num")])],
+        # the one-letter name that IS an underscore
+        [("K0", [leaf("_"), leaf("alpha")])],
     ]
     out = []
     for sh in shapes:
         classes = [{"name": n, "fields": [dict(f) for f in fs]} for n, fs in sh]
-        i = 0
-        for c in classes:
-            for f in c["fields"]:
-                if f["ty"]["k"] == "int":
-                    f["default"] = {"kind": "value", "v": {"t": "int", "v": str(100 + i)}}
-                    i += 1
-        out.append((classes, "K0"))
+        out.append((_number_defaults(classes), "K0"))
     return out
 
 
+SMALL_LEAVES = ["alpha", "a_b", "n"]
+SMALL_ALIASES = [None, "g", "zz", "y_y", "-z", "-v_w", "--al_pha", "--e-f"]
+SMALL_CHAINS = [("opt", "m"), ("sub_cfg", "data_set")]
+SMALL_APIS = [("parser", "DEFAULT"), ("parser", "WITHOUT_ROOT"), ("parse", "OMIT")]
+
+
+def small_scope():
+    """the exhaustively enumerated small scope of the thorough tier (see RULE)"""
+    for ln in SMALL_LEAVES:
+        for al in SMALL_ALIASES:
+            for depth in (1, 2, 3):
+                for chain in (SMALL_CHAINS if depth > 1 else [()]):
+                    specs = []
+                    inner = f"K{depth - 1}"
+                    specs.append({"name": inner, "fields": [_leaf(ln, [al] if al else [])] + ([_leaf("size")] if depth == 1 else [])})
+                    for lvl in range(depth - 2, -1, -1):
+                        fields = [_mem(chain[lvl], f"K{lvl + 1}")]
+                        if lvl == 0:
+                            fields.append(_leaf("size"))
+                        specs.append({"name": f"K{lvl}", "fields": fields})
+                    classes = _number_defaults([{"name": s["name"], "fields": [dict(f) for f in s["fields"]]} for s in specs])
+                    for dash in sp.ALL_DASH:
+                        for g in sp.ALL_GEN:
+                            for api, nest in SMALL_APIS:
+                                yield {"op": "naming.many", "case": {"cfg": {"dash": dash, "gen": g, "nest": nest}, "api": api,
+                                                                     "dest": "config", "classes": classes, "root": "K0"}}
+
+
 def gen(rng, tier):
-    for classes, root in fixed_trees():
+    for si, (classes, root) in enumerate(fixed_trees()):
+        deep = any(f["ty"]["k"] == "dc" for c in classes for f in c["fields"])
         for dash in sp.ALL_DASH:
             for g in sp.ALL_GEN:
-                for nest in sp.ALL_NEST:
-                    for api in ("parser", "parse"):
-                        if api == "parse" and nest == "DEFAULT":
-                            continue  # parse() is WITHOUT_ROOT by definition; counted once
-                        yield {"op": "naming.many", "case": {"cfg": {"dash": dash, "gen": g, "nest": nest}, "api": api,
+                combos = [("parser", "DEFAULT"), ("parser", "WITHOUT_ROOT"), ("parse", "OMIT")]
+                if deep and g != "FLAT":
+                    # the nested_mode argument given explicitly to parse(); the constructor's own default
+                    combos += [("parse", "DEFAULT"), ("parser", "OMIT")]
+                    if si % 2 == 0:
+                        combos.append(("parse", "WITHOUT_ROOT"))
+                for api, nest in combos:
+                    yield {"op": "naming.many", "case": {"cfg": {"dash": dash, "gen": g, "nest": nest}, "api": api,
+                                                         "dest": "config", "classes": classes, "root": root}}
+        # the legacy switch add_dest_to_option_strings=True: whatever generation mode is passed, BOTH is used
+        if si in (3, 6, 7, 12):
+            for dash in sp.ALL_DASH:
+                for g in ("FLAT", "NESTED"):
+                    for api, nest in (("parser", "DEFAULT"), ("parse", "OMIT")):
+                        yield {"op": "naming.many", "case": {"cfg": {"dash": dash, "gen": g, "nest": nest}, "api": api, "legacy": True,
                                                              "dest": "config", "classes": classes, "root": root}}
-    n = 160 if tier == "quick" else 5000
+        # an explicit prefix on the root dataclass (pref != "" branches of the model)
+        if si in (3, 6, 12):
+            for dash in sp.ALL_DASH:
+                for g in sp.ALL_GEN:
+                    yield {"op": "naming.many", "case": {"cfg": {"dash": dash, "gen": g, "nest": "WITHOUT_ROOT"}, "api": "parser",
+                                                         "prefix": PREFIXES[si % 2], "dest": "config", "classes": classes, "root": root}}
+    if tier == "thorough":
+        yield from small_scope()
+    n = 120 if tier == "quick" else 3500
     for _ in range(n):
         names = rng.sample(LEAF_NAMES, len(LEAF_NAMES))
         members = rng.sample(MEMBER_NAMES, len(MEMBER_NAMES))
         aliases = rng.sample(ALIASES, len(ALIASES))
         classes, root = mk_tree(rng, rng.choice([1, 2, 2, 3]), names, members, aliases)
-        yield {"op": "naming.many", "case": {
-            "cfg": {"dash": rng.choice(sp.ALL_DASH), "gen": rng.choice(sp.ALL_GEN), "nest": rng.choice(sp.ALL_NEST)},
-            "api": rng.choice(["parser", "parser", "parse"]), "dest": rng.choice(DEST_NAMES),
-            "classes": classes, "root": root}}
+        case = {"cfg": {"dash": rng.choice(sp.ALL_DASH), "gen": rng.choice(sp.ALL_GEN), "nest": rng.choice(NEST_ARGS)},
+                "api": rng.choice(["parser", "parser", "parse"]), "dest": rng.choice(DEST_NAMES),
+                "classes": classes, "root": root}
+        r = rng.random()
+        if r < 0.08:
+            case["legacy"] = True
+        elif r < 0.16:
+            case["prefix"] = rng.choice(PREFIXES)
+            al = {a for c in classes for f in c["fields"] for a in f.get("alias", [])}
+            if {"-zz", "zz"} <= al:
+                # not clash-free: with a prefix containing `_` both aliases get the dashed variant `--p-zz` under
+                # UNDERSCORE_AND_DASH (the one-dash alias through the defect C10-short-alias-variant)
+                del case["prefix"]
+        yield {"op": "naming.many", "case": case}
 
 
 # -----------------------------------------------------------------------------------------------
@@ -165,66 +245,128 @@ def leaves(case):
 
 
 def eff_nest(case):
-    return "WITHOUT_ROOT" if case["api"] == "parse" else case["cfg"]["nest"]
+    """the nested mode the property speaks of: the one given; when the argument is omitted, the documented default of the
+    API (parsing.py:1003-1048: parse() -> WITHOUT_ROOT; ArgumentParser -> DEFAULT)"""
+    n = case["cfg"]["nest"]
+    if n != "OMIT":
+        return n
+    return "WITHOUT_ROOT" if case["api"] == "parse" else "DEFAULT"
+
+
+def eff_gen(case):
+    """add_dest_to_option_strings (legacy switch, parsing.py:141-142) means BOTH"""
+    return "BOTH" if case.get("legacy") else case["cfg"]["gen"]
+
+
+def eff_cfg(case):
+    return {"dash": case["cfg"]["dash"], "gen": eff_gen(case), "nest": eff_nest(case)}
+
+
+def field_prefix(case, path):
+    """an explicit add_arguments(prefix=) reaches the fields of the root dataclass only"""
+    return case.get("prefix", "") if len(path) == 2 else ""
 
 
 def expected_long(case, path, f):
-    """Independent transcription of the property sentence: accepted long options of one field."""
-    cfg = case["cfg"]
+    """Independent transcription of the property sentence: accepted long options of one field (None = the sentence is
+    silent: a user-given prefix)."""
+    if field_prefix(case, path):
+        return None
+    dash = case["cfg"]["dash"]
+    g = eff_gen(case)
     names = []
-    if cfg["gen"] in ("FLAT", "BOTH"):
+    if g in ("FLAT", "BOTH"):
         names.append(f["name"])
-    if cfg["gen"] in ("NESTED", "BOTH"):
+    if g in ("NESTED", "BOTH"):
         comps = path[1:] if eff_nest(case) == "WITHOUT_ROOT" else path
         names.append(".".join(comps))
     out = set()
-    for g in names:
-        if cfg["dash"] == "UNDERSCORE":
-            out.add(g)
-        elif cfg["dash"] == "DASH":
-            out.add(g.replace("_", "-"))
+    for nm in names:
+        if dash == "UNDERSCORE":
+            out.add("--" + nm)
+        elif dash == "DASH":
+            out.add("--" + nm.replace("_", "-"))
         else:
-            out |= {g, g.replace("_", "-")}
+            out |= {"--" + nm, "--" + nm.replace("_", "-")}
     for a in f.get("alias", []):
-        body = a.lstrip("-")
-        is_long = a.startswith("--") or (not a.startswith("-") and len(a) > 1)
-        if is_long:
-            out.add(body)
-        if cfg["dash"] == "UNDERSCORE_AND_DASH" and "_" in body:
-            out.add(body.replace("_", "-"))
-    return {"--" + x for x in out}
+        # "plus every declared alias", with the dashes it was declared with (a dash-less alias is a long option unless it
+        # is one letter); UNDERSCORE_AND_DASH "accepts both spellings for names and aliases": the declared one and the
+        # one with dashes for underscores — the leading dashes are part of the declared spelling and stay
+        k = 2 if a.startswith("--") else 1 if a.startswith("-") else 0
+        decl = a if k else ("-" if len(a) == 1 else "--") + a
+        spellings = {decl}
+        if dash == "UNDERSCORE_AND_DASH":
+            spellings.add(decl.replace("_", "-"))
+        out |= {s for s in spellings if s.startswith("--")}
+    return out
+
+
+def _kwargs(case):
+    kw = {"add_option_string_dash_variants": sp.DASH[case["cfg"]["dash"]],
+          "argument_generation_mode": sp.GEN[case["cfg"]["gen"]]}
+    if case["cfg"]["nest"] != "OMIT":
+        kw["nested_mode"] = sp.NEST[case["cfg"]["nest"]]
+    if case.get("legacy"):
+        kw["add_dest_to_option_strings"] = True
+    return kw
 
 
 def _build(case):
+    import simple_parsing
+
     u = Universe().add_classes(case["classes"])
     root = u.classes[case["root"]]
     sp.reset_globals()
-    cfg = dict(case["cfg"])
-    cfg["nest"] = eff_nest(case)
-    parser = sp.make_parser(cfg)
-    parser.add_arguments(root, dest=case["dest"])
-    sp.decoy(cfg)   # a later parser with other settings must not change this parser's spelling
+    parser = simple_parsing.ArgumentParser(**_kwargs(case))
+    parser.add_arguments(root, dest=case["dest"], prefix=case.get("prefix", ""))
+    sp.decoy(eff_cfg(case))   # a later parser with other settings must not change this parser's spelling
     return parser, root
 
 
-def _parse(case, argv):
+@contextlib.contextmanager
+def _spy():
+    """records the ArgumentParser objects parse() constructs (parse() looks the class up in its module at call time)"""
+    import simple_parsing.parsing as P
+
+    orig = P.ArgumentParser
+    made = []
+
+    class Spy(orig):
+        def __init__(self, *a, **k):
+            super().__init__(*a, **k)
+            made.append(self)
+
+    P.ArgumentParser = Spy
+    try:
+        yield made
+    finally:
+        P.ArgumentParser = orig
+
+
+def _parse(case, argv, want_parser=False):
     import simple_parsing
 
     if case["api"] == "parse":
         u = Universe().add_classes(case["classes"])
         root = u.classes[case["root"]]
         sp.reset_globals()
-        sp.decoy({"dash": case["cfg"]["dash"], "gen": case["cfg"]["gen"], "nest": "WITHOUT_ROOT"})   # an earlier parser with other settings
-        r = sp.run_outcome(lambda: simple_parsing.parse(
-            root, args=argv, dest=case["dest"], add_option_string_dash_variants=sp.DASH[case["cfg"]["dash"]],
-            argument_generation_mode=sp.GEN[case["cfg"]["gen"]]))
+        sp.decoy(eff_cfg(case))   # an earlier parser with other settings
+        kw = _kwargs(case)
+        if case.get("prefix"):
+            kw["prefix"] = case["prefix"]
+        with _spy() as made:
+            r = sp.run_outcome(lambda: simple_parsing.parse(root, args=argv, dest=case["dest"], **kw))
         if r["o"] == "ok":
             r["inst"] = r.pop("value")
+        if want_parser:
+            r["parser"] = made[0] if made else None
         return r
     parser, _ = _build(case)
     r = sp.run_outcome(lambda: parser.parse_args(argv))
     if r["o"] == "ok":
         r["inst"] = getattr(r.pop("value"), case["dest"])
+    if want_parser:
+        r["parser"] = parser
     return r
 
 
@@ -233,10 +375,11 @@ def near_misses(expected: set[str]) -> set[str]:
     for e in expected:
         b = e[2:]
         out |= {"--" + b.replace("_", "-"), "--" + b.replace("-", "_"), "--cfgx." + b, "--" + b + "x", "--" + b.upper(),
-                "--" + b.replace(".", "_"), "--" + b.replace(".", "-")}
+                "--" + b.replace(".", "_"), "--" + b.replace(".", "-"), "-" + e}
         if "." in b:
             out.add("--" + b.split(".", 1)[1])
             out.add("--" + b.rsplit(".", 1)[1])
+    out.discard("--")
     return out
 
 
@@ -244,15 +387,23 @@ def impl(case):
     c = case["case"]
     lv = leaves(c)
 
-    def setup():
-        parser, _ = _build(c)
-        parser._preprocessing(args=[])
-        return parser
+    # the parser whose actions are read: for parse() the one parse() itself constructs (empty command line)
+    if c["api"] == "parse":
+        r = _parse(c, [], want_parser=True)
+        if r["o"] == "ok" and r.get("parser") is None:
+            r = {"o": "raise", "exc": "NoParserConstructed"}
+    else:
+        def setup():
+            parser, _ = _build(c)
+            parser._preprocessing(args=[])
+            return parser
 
-    r = sp.run_outcome(setup)
+        r = sp.run_outcome(setup)
+        if r["o"] == "ok":
+            r["parser"] = r.pop("value")
     if r["o"] != "ok":
-        return {"setup": {k: v for k, v in r.items() if k != "value"}}
-    parser = r["value"]
+        return {"setup": {k: v for k, v in r.items() if k not in ("value", "parser", "inst")}}
+    parser = r["parser"]
     sets = []
     for path, f in lv:
         act = sp.action_for_dest(parser, ".".join(path))
@@ -266,27 +417,35 @@ def impl(case):
     for path, f in lv:
         e = expected_long(c, path, f)
         per_field_exp.append(e)
-        exp_all |= e
+        exp_all |= e or set()
     cand = set()
     for s, e in zip(sets, per_field_exp):
-        cand |= set(s or []) | e
-    # near-miss spellings: a deterministic, evenly spaced sample (each probe builds a fresh parser)
-    nm = sorted(near_misses(exp_all) - cand)
+        cand |= set(s or []) | (e or set())
+    plan = [(o, "sep") for o in sorted(cand)]
+    # the `--opt=value` form of one long spelling per field (the longest: never an abbreviation of another one of the field)
+    for s in sets:
+        longs = sorted((o for o in (s or []) if o.startswith("--") and len(o) > 2), key=lambda o: (len(o), o))
+        if longs:
+            plan.append((longs[-1], "eq"))
+    # near-miss spellings: a deterministic, evenly spaced sample (each probe builds a fresh parser), alternating forms
+    field_longs = {o for s in sets for o in (s or []) if o.startswith("--") and len(o) > 2}
+    nm = sorted(near_misses(exp_all | field_longs) - cand - set(all_real))
     budget = 12
-    cand |= set(nm if len(nm) <= budget else nm[:: max(1, len(nm) // budget)][:budget])
-    for opt in sorted(cand):
-        if any(o.startswith(opt) and o != opt for o in all_real):
+    nm = nm if len(nm) <= budget else nm[:: max(1, len(nm) // budget)][:budget]
+    plan += [(o, "sep" if i % 3 else "eq") for i, o in enumerate(nm)]
+    for opt, form in plan:
+        if opt != "--" and any(o.startswith(opt) and o != opt for o in all_real):
             continue  # abbreviation of a valid option: out of scope ("abbreviations aside")
-        res = _parse(c, [opt, "7"])
+        res = _parse(c, [opt, "7"] if form == "sep" else [opt + "=7"])
         if res["o"] == "ok":
             changed = {}
             for p, dflt in defaults.items():
                 v = get_path(res["inst"], p)
                 if v != dflt:
                     changed[p] = v if isinstance(v, int) else repr(v)
-            probes.append({"opt": opt, "o": "ok", "changed": changed})
+            probes.append({"opt": opt, "form": form, "o": "ok", "changed": changed})
         else:
-            probes.append({"opt": opt, "o": res["o"], "code": res.get("code"), "kind": res.get("kind"), "exc": res.get("exc")})
+            probes.append({"opt": opt, "form": form, "o": res["o"], "code": res.get("code"), "kind": res.get("kind"), "exc": res.get("exc")})
     return {"sets": sets, "probes": probes}
 
 
@@ -294,10 +453,9 @@ def model_case(case, obs):
     c = case["case"]
     fws = []
     for path, f in leaves(c):
-        fws.append({"name": f["name"], "prefix": "", "dest": ".".join(path), "aliases": f.get("alias", []), "positional": False})
-    cfg = dict(c["cfg"])
-    cfg["nest"] = eff_nest(c)
-    return {"cfg": cfg, "fws": fws}
+        fws.append({"name": f["name"], "prefix": field_prefix(c, path), "dest": ".".join(path), "aliases": f.get("alias", []),
+                    "positional": False})
+    return {"cfg": eff_cfg(c), "fws": fws}
 
 
 def project(case, obs):
@@ -313,28 +471,38 @@ def oracle(case, obs):
         return [{"clause": "setup", "detail": f"clash-free tree failed to set up: {obs['setup']}"}]
     lv = leaves(c)
     owner = {}
+    meta = {}
     for (path, f), s in zip(lv, obs["sets"]):
         key = ".".join(path[1:])
         if s is None:
-            fails.append({"clause": "exact-set", "detail": f"no action for {key}"})
+            fails.append({"clause": "exact-set", "field": key, "leaf": f["name"], "detail": f"no action for {key}"})
             continue
-        real_long = {o for o in s if o.startswith("--")}
+        meta[key] = {"leaf": f["name"], "opts": list(s)}
+        if "--" in s:
+            # the bare `--` is argparse's separator; it is no spelling of anything
+            fails.append({"clause": "separator-option", "field": key, "leaf": f["name"], "opts": list(s),
+                          "detail": f"{key}: the bare separator '--' is registered as an option string: {s}"})
+        real_long = {o for o in s if o.startswith("--") and o != "--"}
         exp = expected_long(c, path, f)
-        if real_long != exp:
-            fails.append({"clause": "exact-set", "field": key,
-                          "detail": f"{key}: accepted long options {sorted(real_long)}, the rule says {sorted(exp)} (cfg {c['cfg']}, api {c['api']})"})
+        if exp is not None and real_long != exp:
+            fails.append({"clause": "exact-set", "field": key, "leaf": f["name"], "opts": list(s),
+                          "extra": sorted(real_long - exp), "missing": sorted(exp - real_long), "aliases": list(f.get("alias", [])),
+                          "detail": f"{key}: accepted long options {sorted(real_long)}, the rule says {sorted(exp)} "
+                                    f"(cfg {c['cfg']}, api {c['api']}, legacy {bool(c.get('legacy'))})"})
         for o in s:
             owner[o] = key
-        for o in exp:
+        for o in exp or ():
             owner.setdefault(o, key)
     for p in obs["probes"]:
         o = p["opt"]
         if o in owner:
             if p["o"] != "ok" or p["changed"] != {owner[o]: 7}:
-                fails.append({"clause": "same-field", "detail": f"[{o} 7] should set exactly {owner[o]}: got {p}"})
+                fails.append({"clause": "same-field", "field": owner[o], "opt": o, **meta.get(owner[o], {}),
+                              "detail": f"[{o} 7] ({p.get('form')}) should set exactly {owner[o]}: got {p}"})
         else:
             if not (p["o"] == "exit" and p["code"] == 2):
-                fails.append({"clause": "nothing-else", "detail": f"spelling {o} is not allowed by the rule but was not rejected: {p}"})
+                fails.append({"clause": "nothing-else", "opt": o,
+                              "detail": f"spelling {o} ({p.get('form')}) is not allowed by the rule but was not rejected: {p}"})
     return fails
 
 
@@ -344,18 +512,47 @@ def nontrivial(case, obs):
     return len(lv) >= 2 and (any(len(p) > 2 for p, _ in lv) or any(f.get("alias") or "_" in f["name"] for _, f in lv))
 
 
+def _alias_kind(a):
+    if a.startswith("--"):
+        return "2dash"
+    if a.startswith("-"):
+        return "1dash" if len(a) == 2 else "1dash-multi"
+    return "0dash" if len(a) > 1 else "0dash-oneletter"
+
+
 def tags(case, obs):
     c = case["case"]
     lv = leaves(c)
-    t = [f"dash:{c['cfg']['dash']}", f"gen:{c['cfg']['gen']}", f"nest:{eff_nest(c)}", f"api:{c['api']}",
-         f"depth:{max(len(p) for p, _ in lv) - 1}", f"fields:{len(lv)}"]
+    t = [f"dash:{c['cfg']['dash']}", f"gen:{c['cfg']['gen']}", f"nest:{eff_nest(c)}", f"nestarg:{c['cfg']['nest']}", f"api:{c['api']}",
+         f"depth:{max(len(p) for p, _ in lv) - 1}", f"fields:{len(lv)}", f"dest:{c['dest']}"]
+    if c.get("legacy"):
+        t.append("legacy_add_dest")
+    if c.get("prefix"):
+        t.append(f"prefix:{c['prefix']}")
+    kinds = {_alias_kind(a) for _, f in lv for a in f.get("alias", [])}
+    t += [f"alias:{k}" for k in sorted(kinds)] or ["alias:none"]
+    if any("_" in a for _, f in lv for a in f.get("alias", [])):
+        t.append("underscore:alias")
+    if any(len(f["name"]) == 1 for _, f in lv):
+        t.append("oneletter")
+    if any("_" in f["name"] for _, f in lv):
+        t.append("underscore:name")
+    if any("_" in m for p, _ in lv for m in p[1:-1]):
+        t.append("underscore:member")
+    if "_" in c["dest"]:
+        t.append("underscore:dest")
     if "probes" in obs:
         t.append(f"probes:{len(obs['probes']) // 10 * 10}+")
+        t.append(f"eqprobes:{sum(1 for p in obs['probes'] if p.get('form') == 'eq')}")
+        t.append("rejected-nearmiss:%d" % sum(1 for p in obs["probes"] if p["o"] == "exit"))
     return t
 
 
 def shrink(case):
     c = case["case"]
+    for k in ("legacy", "prefix"):
+        if c.get(k):
+            yield {"op": case["op"], "case": {kk: v for kk, v in c.items() if kk != k}}
     # drop a field anywhere
     for ci, cl in enumerate(c["classes"]):
         for fi in range(len(cl["fields"])):
@@ -372,6 +569,34 @@ def shrink(case):
                 nc = [dict(x, fields=[dict(y) for y in x["fields"]]) for x in c["classes"]]
                 nc[ci]["fields"][fi]["alias"] = []
                 yield {"op": case["op"], "case": dict(c, classes=nc)}
+                if len(f["alias"]) > 1:
+                    for a in f["alias"]:
+                        nc = [dict(x, fields=[dict(y) for y in x["fields"]]) for x in c["classes"]]
+                        nc[ci]["fields"][fi]["alias"] = [a]
+                        yield {"op": case["op"], "case": dict(c, classes=nc)}
 
 
-FINDINGS = {}
+def _short_alias_variants(fail):
+    """the two-dash dashed variants the code derives from ONE-dash aliases that contain an underscore"""
+    out = set()
+    for a in fail.get("aliases", []):
+        if a.startswith("-") and not a.startswith("--") and "_" in a[1:]:
+            out.add("--" + a[1:].replace("_", "-"))
+    return out
+
+
+FINDINGS = {
+    # a leaf literally named `_` whose real option strings contain the bare separator `--` (DASH: ['--','---'];
+    # UNDERSCORE_AND_DASH: ['-_','--','--_']): the separator clause itself, the long-option set of that leaf, and the dead
+    # spelling `--` (and, under UNDERSCORE_AND_DASH, the missing dashed long spelling `---`) not setting the field
+    "C10-separator-option": lambda case, obs, fail: (
+        fail.get("leaf") == "_" and "--" in fail.get("opts", [])
+        and (fail.get("clause") == "separator-option"
+             or (fail.get("clause") == "exact-set" and not fail.get("extra") and set(fail.get("missing", [])) <= {"---"})
+             or (fail.get("clause") == "same-field" and fail.get("opt") in ("--", "---")))),
+    # UNDERSCORE_AND_DASH, a one-dash alias with an underscore (`-v_w`): the ONLY deviation of the field's long options is
+    # the extra two-dash variant `--v-w`
+    "C10-short-alias-variant": lambda case, obs, fail: (
+        fail.get("clause") == "exact-set" and case["case"]["cfg"]["dash"] == "UNDERSCORE_AND_DASH"
+        and not fail.get("missing") and bool(fail.get("extra")) and set(fail["extra"]) <= _short_alias_variants(fail)),
+}
